@@ -42,6 +42,9 @@ def check_C16(tier):
         res.traces += summ.get("executions", 0)
         res.evaluations += summ.get("executions", 0)
         res.extra["sequences_" + kind] = summ.get("executions", 0)
+        if kind == "activate":
+            res.extra["activate_listener_on_fd3"] = summ.get("listener_on_fd3", 0)
+            res.extra["activate_listener_elsewhere"] = summ.get("listener_elsewhere", 0)
     res.nontrivial = {sig_of(c["reqs"]) for c in seqs if len(c["reqs"]) >= 1} | {json.dumps(c, sort_keys=True) for c in cases}
     res.rule = ("Addr.tla tables enumerated completely: 13 address schemes x with/without ';' parameters (client and server must agree on "
                 "invalid-address), 132 consistent activation environments (LISTEN_FDS x LISTEN_PID x LISTEN_FDNAMES) probed in a child "
